@@ -421,7 +421,7 @@ Cyclic(g) == \E n \in Reachable(g) : OnCycle(g.edges, n, g.n + 1)
 ResolvableCycle(g) == LET E == {e \in g.edges : e.kind \in ResolvedKinds}
                       IN \E n \in Reachable(g) : OnCycle(E, n, g.n + 1)
 \* some node is referenced twice without any cycle (a DAG that is not a tree, or a root list repeating a node)
-Shared(g) == \E n \in Reachable(g) : Cardinality({e \in g.edges : e.to = n /\ e.from \in Reachable(g)}) + (IF n \in Roots(g) /\ g.root = "list" THEN 1 ELSE 0) >= 2
+Shared(g) == \E n \in Reachable(g) : Cardinality({e \in g.edges : e.to = n /\ e.from \in Reachable(g)}) + (IF g.root = "list" THEN (IF n = 1 THEN 2 ELSE 1) ELSE 0) >= 2
 
 NodeName(n) == "n" \o ToString(n)
 RECURSIVE NodeTree(_, _, _)
